@@ -1391,6 +1391,46 @@ def rule_r19(prog, res):
               'closest ancestor (C06-R18)', 'C06', c06.rule_r18, prog, Result)
 
 
+def rule_r20(prog, res):
+    res.rule('R20', 'the base of a published restriction is a type that has '
+             'a name: ancestors customised without one (type name Empty) are '
+             'skipped before the reference is written')
+    f = prog.func('spyne.interface.xml_schema.model:simple_get_restriction_tag')
+    sets = [c for c in calls_in(f.node) if call_name(c) == 'set' and
+            len(c.args) == 2 and isinstance(c.args[0], ast.Constant) and
+            c.args[0].value == 'base' and 'get_type_name_ns' in unparse(
+                c.args[1])]
+    res.floor('R20', 'base references in simple_get_restriction_tag',
+              len(sets), 1)
+    for c in sets:
+        recv = None
+        for y in ast.walk(c.args[1]):
+            if isinstance(y, ast.Call) and call_name(y) == \
+                    'get_type_name_ns' and isinstance(y.func, ast.Attribute):
+                recv = unparse(y.func.value)
+        skips = [w_ for w_ in walk_no_defs(f.node) if isinstance(
+            w_, (ast.While, ast.If)) and 'Empty' in unparse(w_.test) and
+            w_.lineno < c.lineno and any(
+                isinstance(a, ast.Assign) and unparse(a.targets[0]) == recv
+                and '__extends__' in unparse(a.value)
+                for a in ast.walk(w_))]
+        ok = bool(skips) and any(isinstance(w_, ast.While) for w_ in skips)
+        where = '%s:%d' % (f.module.relpath, c.lineno)
+        res.ob('R20', where, 'simple_get_restriction_tag writes base=%s.'
+               'get_type_name_ns() %s' % (recv, 'after skipping unnamed '
+                                          'ancestors' if ok else
+                                          'whatever its type name'),
+               'ok' if ok else 'VIOLATED')
+        if not ok:
+            res.finding('R20', 'simple_get_restriction_tag|unnamed-base',
+                        where, 'the restriction base is written from %s '
+                        'without skipping ancestors whose type name is '
+                        'Empty: Unicode(max_len=10)(max_len=5, type_name='
+                        '"Named") is published with base="s0:<class '
+                        '\'...ModelBase.Empty\'>", a QName that resolves to '
+                        'nothing' % recv)
+
+
 def run(prog, res, tier):
     res.run_rule(rule_r1, prog, res, tier)
     res.run_rule(rule_r2, prog, res)
@@ -1411,6 +1451,7 @@ def run(prog, res, tier):
     res.run_rule(rule_r17, prog, res)
     res.run_rule(rule_r18, prog, res)
     res.run_rule(rule_r19, prog, res)
+    res.run_rule(rule_r20, prog, res)
 
 
 _S = 'spyne/interface/xml_schema/_base.py'
@@ -1419,6 +1460,12 @@ _I = 'spyne/interface/_base.py'
 _T = 'spyne/util/toposort.py'
 
 MUTANTS = [
+    Mutant('unnamed-ancestor-skip-removed', 'R20', 'fire',
+           'spyne/interface/xml_schema/model.py',
+           in_func('simple_get_restriction_tag',
+                   r"    while extends\.get_type_name\(\) is cls\.Empty "
+                   r"\\\n(.*?)extends = extends\.__extends__\n", "",
+                   regex=True), 'unnamed-base'),
     Mutant('array-item-names-only-for-same-orig', 'R18', 'fire', _I,
            in_func('Interface.has_class',
                    r"            if o1 in \(Array, Iterable\) and o2 in "
